@@ -132,11 +132,11 @@ func (h *hw) CPUSignatureFull() (uint32, uint32, uint32, uint32) {
 // ---------- verdict projection ----------
 
 type verd struct {
-	Panic      bool   `json:"panic,omitempty"`
-	OK         bool   `json:"ok"`
-	E1         bool   `json:"err,omitempty"`
-	E2         bool   `json:"ierr,omitempty"`
-	Msg        string `json:"msg,omitempty"`
+	Panic bool   `json:"panic,omitempty"`
+	OK    bool   `json:"ok"`
+	E1    bool   `json:"err,omitempty"`
+	E2    bool   `json:"ierr,omitempty"`
+	Msg   string `json:"msg,omitempty"`
 }
 
 func (v verd) lit() string {
